@@ -431,6 +431,25 @@ def main(tier, seed):
             res.add_case(tuple(c[:30] for c in full), True, sample=[c[:60] for c in full][:10] if k % 4 == 0 else None)
             if len(res.violations) >= 3:
                 break
+        # every length 1..48 (quick) / 1..200 (thorough): one batch, reopen (the cache is seeded with the roots of THAT length), reads of
+        # the first blocks and of a sample: a cache entry that answers for a node it does not belong to shows at particular tree shapes only
+        for L in (range(1, 49) if tier == "quick" else range(1, 201)):
+            if len(res.violations) >= 3:
+                break
+            sc = ["new W D writer", "append W " + " ".join(hexb(bytes([97 + (i % 26)]) * (1 + i % 5)) for i in range(L)), "drop W", "open W D", "info W"]
+            sc += ["get W %d" % i for i in sorted(set(list(range(min(L, 10))) + [r.randrange(L) for _ in range(4)] + [L - 1, L]))]
+            ref_ans, ref_files = run_config(base, sc, "vec", "off")
+            for (srv, dk, cache) in [(base, "vec", "default"), (base, "vec", "tiny"), (base, "file", "default")]:
+                res.count("length-sweep:%s/%s" % (dk, cache))
+                ans, files = run_config(srv, sc, dk, cache)
+                if ans != ref_ans or files != ref_files:
+                    j = next((i for i in range(len(ans)) if ans[i] != ref_ans[i]), None)
+                    res.violations.append(dict(key="config:length-sweep", what="%d blocks, reopened, backend=%s cache=%s: %s" % (L, dk, cache,
+                                               ("%s answered %s, on the instrumented backend without cache %s" % (sc[j][:60], ans[j][:80], ref_ans[j][:80])) if j is not None
+                                               else "storage files differ from the instrumented backend without cache"),
+                                               replay=dict(script=[c[:300] for c in sc], backend=dk, cache=cache, step=j)))
+                    break
+        res.add_case(("length-sweep",), True, sample="every length 1..48: one batch, reopen, reads, on cache configurations vs none")
     finally:
         base.close(); nocache.close(); model.close()
         shutil.rmtree(scratch, ignore_errors=True)
